@@ -4,6 +4,33 @@ From Coq Require Import ZifyBool.
 Import C40.
 Open Scope N_scope.
 
+(* ---- ALPNs are compared as byte strings ---- *)
+
+Lemma alpn_eqb_spec (x y : alpn) : reflect (x = y) (alpn_eqb x y).
+Proof.
+  destruct (alpn_eqb x y) eqn:E; constructor.
+  - now apply bytes_eqb_eq.
+  - intros ->. unfold alpn_eqb in E. rewrite bytes_eqb_refl in E. discriminate.
+Qed.
+
+Lemma alpn_eqb_refl (x : alpn) : alpn_eqb x x = true.
+Proof. apply bytes_eqb_refl. Qed.
+
+Lemma alpn_eqb_iff (x y : alpn) : alpn_eqb x y = true <-> x = y.
+Proof. destruct (alpn_eqb_spec x y); split; congruence. Qed.
+
+(* the key order is a strict order that separates any two different byte strings *)
+Lemma bytes_ltb_irrefl x : bytes_ltb x x = false.
+Proof. induction x as [|a x IH]; cbn [bytes_ltb]; [reflexivity|]. rewrite N.ltb_irrefl, N.eqb_refl. exact IH. Qed.
+
+Lemma bytes_ltb_total x : forall y, x <> y -> bytes_ltb x y = true \/ bytes_ltb y x = true.
+Proof.
+  induction x as [|a x IH]; intros [|b y] H; cbn [bytes_ltb]; auto; try congruence.
+  destruct (N.ltb_spec a b); [auto|]. destruct (N.eqb_spec a b) as [->|Hn].
+  - rewrite N.ltb_irrefl, N.eqb_refl. apply IH. congruence.
+  - right. destruct (N.ltb_spec b a); [reflexivity|lia].
+Qed.
+
 (* ---- the registry: the LAST registration of an ALPN wins ---- *)
 
 Lemma lookup_from_spec a rs : forall k found,
@@ -11,7 +38,7 @@ Lemma lookup_from_spec a rs : forall k found,
   match lookup_from k a rs None with Some h => Some h | None => found end.
 Proof.
   induction rs as [|x r IH]; intros k found; cbn [lookup_from]; [reflexivity|].
-  destruct (N.eqb x a).
+  destruct (alpn_eqb x a).
   - rewrite (IH (k + 1) (Some k)). destruct (lookup_from (k + 1) a r None); reflexivity.
   - apply IH.
 Qed.
@@ -22,7 +49,7 @@ Lemma lookup_from_some a rs : forall k h,
   forall j, (N.to_nat (h - k) < j)%nat -> nth_error rs j <> Some a.
 Proof.
   induction rs as [|x r IH]; intros k h H; cbn [lookup_from] in H; [discriminate|].
-  destruct (N.eqb_spec x a) as [E|E].
+  destruct (alpn_eqb_spec x a) as [E|E].
   - rewrite lookup_from_spec in H. destruct (lookup_from (k + 1) a r None) as [h'|] eqn:L.
     + inversion H; subst h'. destruct (IH _ _ L) as (H1 & H2 & H3).
       split; [lia|]. replace (N.to_nat (h - k)) with (S (N.to_nat (h - (k + 1)))) by lia.
@@ -32,9 +59,9 @@ Proof.
       (* a occurs in r at j, so lookup_from finds it *)
       clear -L Hn. revert j k L Hn. induction r as [|y r IHr]; intros j k L Hn; [destruct j; discriminate|].
       cbn [lookup_from] in L. destruct j; cbn in Hn.
-      * inversion Hn; subst. rewrite N.eqb_refl in L. rewrite lookup_from_spec in L.
+      * inversion Hn; subst. rewrite alpn_eqb_refl in L. rewrite lookup_from_spec in L.
         destruct (lookup_from (k + 1 + 1) a r None); discriminate.
-      * destruct (N.eqb y a).
+      * destruct (alpn_eqb y a).
         -- rewrite lookup_from_spec in L. destruct (lookup_from (k + 1 + 1) a r None); discriminate.
         -- eapply IHr; eauto.
   - destruct (IH _ _ H) as (H1 & H2 & H3). split; [lia|].
@@ -53,7 +80,7 @@ Qed.
 Lemma lookup_none a rs : lookup a rs = None -> ~ In a rs.
 Proof.
   unfold lookup. generalize 0. induction rs as [|x r IH]; intros k H; [tauto|].
-  cbn [lookup_from] in H. destruct (N.eqb_spec x a) as [E|E].
+  cbn [lookup_from] in H. destruct (alpn_eqb_spec x a) as [E|E].
   - rewrite lookup_from_spec in H. destruct (lookup_from (k + 1) a r None); discriminate.
   - intros [E'|Hin]; [contradiction|]. exact (IH _ H Hin).
 Qed.
@@ -97,12 +124,12 @@ Lemma negotiate_sound server offered a :
   negotiate server offered = Some a -> In a server /\ In a offered.
 Proof.
   unfold negotiate. intros H. apply find_some in H as [H1 H2]. split; [assumption|].
-  unfold mem in H2. apply existsb_exists in H2 as (x & Hx & E). apply N.eqb_eq in E. now subst.
+  unfold mem in H2. apply existsb_exists in H2 as (x & Hx & E). apply bytes_eqb_eq in E. now subst.
 Qed.
 
 (* ---- whole case ---- *)
 
-Definition hlog (o : out) : list (N * option N) := snd (fst o).
+Definition hlog (o : out) : list (N * option alpn) := snd (fst o).
 
 Lemma run_case_handler i h a :
   In (h, a) (hlog (run_case i)) <->
@@ -129,7 +156,7 @@ Proof.
 Qed.
 
 Lemma oN_eqb_refl o : oN_eqb o o = true.
-Proof. destruct o; cbn; [apply N.eqb_refl | reflexivity]. Qed.
+Proof. destruct o; cbn; [apply alpn_eqb_refl | reflexivity]. Qed.
 
 Lemma admitted_by_model_log f :
   snd (filter_phase f) = AdmOk -> admitted_by_log f (fst (filter_phase f)) = true.
@@ -148,38 +175,64 @@ Proof.
   - cbn [forallb fst snd andb]. rewrite L. cbn [opt_eqb]. rewrite N.eqb_refl.
     destruct (negotiate_sound _ _ _ Ng) as [_ Ho].
     assert (M : mem a (offer i) = true).
-    { unfold mem. apply existsb_exists. exists a. split; [assumption | apply N.eqb_refl]. }
+    { unfold mem. apply existsb_exists. exists a. split; [assumption | apply alpn_eqb_refl]. }
     rewrite M, Fa by reflexivity. cbn [andb list_eqb].
     unfold hentry_eqb. cbn [fst snd]. rewrite N.eqb_refl, oN_eqb_refl. reflexivity.
   - cbn [forallb andb]. rewrite L. reflexivity.
 Qed.
 
 (* Non-vacuity / witnesses *)
+Definition nA : alpn := str_bytes "/c40/a".
+Definition nB : alpn := str_bytes "/c40/b".
+Definition nC : alpn := str_bytes "/c40/c".
+Definition nD : alpn := str_bytes "/c40/d".
+Definition nX : alpn := hex "ff61".          (* not valid UTF-8 *)
+Definition nL : alpn := hex "efbfbd61".      (* the U+FFFD rendering of nX *)
+Definition nAb : alpn := str_bytes "/c40/ab". (* nA is a proper prefix *)
+
 Example ex_replace : (* a later registration of the same ALPN replaces the earlier one *)
-  run_case (mkIn [2; 0; 2] None None [2]) = ([], [(2, Some 2)], DGreeted 2 (Some 2)).
+  run_case (mkIn [nC; nA; nC] None None [nC]) = ([], [(2, Some nC)], DGreeted 2 (Some nC)).
 Proof. vm_compute. reflexivity. Qed.
 
 Example ex_retry_accept :
-  run_case (mkIn [0; 1] None (Some (VRetry, VAccept)) [1]) = ([false; true], [(1, Some 1)], DGreeted 1 (Some 1)).
+  run_case (mkIn [nA; nB] None (Some (VRetry, VAccept)) [nB]) = ([false; true], [(1, Some nB)], DGreeted 1 (Some nB)).
 Proof. vm_compute. reflexivity. Qed.
 
 Example ex_retry_retry :
-  run_case (mkIn [0] None (Some (VRetry, VRetry)) [0]) = ([false; true], [], DRefused).
+  run_case (mkIn [nA] None (Some (VRetry, VRetry)) [nA]) = ([false; true], [], DRefused).
 Proof. vm_compute. reflexivity. Qed.
 
 Example ex_unregistered_negotiated :
-  run_case (mkIn [0; 1] (Some [0; 1; 3]) None [3]) = ([], [], DDropped (Some 3)).
+  run_case (mkIn [nA; nB] (Some [nA; nB; nD]) None [nD]) = ([], [], DDropped (Some nD)).
 Proof. vm_compute. reflexivity. Qed.
+
+(* a non-UTF-8 ALPN and its U+FFFD rendering are two different protocols *)
+Example ex_binary_alpn :
+  run_case (mkIn [nX; nL] None None [nX]) = ([], [(0, Some nX)], DGreeted 0 (Some nX)) /\
+  run_case (mkIn [nX; nL] None None [nL]) = ([], [(1, Some nL)], DGreeted 1 (Some nL)) /\
+  run_case (mkIn [nL] (Some [nL; nX]) None [nX]) = ([], [], DDropped (Some nX)).
+Proof. vm_compute. auto. Qed.
+
+(* a name and a proper prefix of it are different protocols; the prefix sorts first *)
+Example ex_prefix :
+  keys [nAb; nX; nA; nL; nAb] = [nA; nAb; nL; nX] /\
+  run_case (mkIn [nAb; nA] None None [nAb; nA]) = ([], [(1, Some nA)], DGreeted 1 (Some nA)) /\
+  run_case (mkIn [nAb] None None [nA]) = ([], [], DHandshake).
+Proof. vm_compute. auto. Qed.
 
 Example mon_rejects :
   (* handed to the handler of another protocol *)
-  monitor (mkIn [0; 1] None None [1]) (Ok ([], [(0, Some 1)], DGreeted 0 (Some 1))) = false /\
+  monitor (mkIn [nA; nB] None None [nB]) (Ok ([], [(0, Some nB)], DGreeted 0 (Some nB))) = false /\
+  (* a binary ALPN handed to the handler registered under its U+FFFD rendering *)
+  monitor (mkIn [nX; nL] None None [nX]) (Ok ([], [(1, Some nX)], DGreeted 1 (Some nX))) = false /\
+  (* a registered binary ALPN dropped without a handler *)
+  monitor (mkIn [nX] None None [nX]) (Ok ([], [], DDropped (Some nX))) = false /\
   (* handler reached although the filter rejected the validated retry *)
-  monitor (mkIn [0] None (Some (VRetry, VReject)) [0]) (Ok ([false; true], [(0, Some 0)], DGreeted 0 (Some 0))) = false /\
+  monitor (mkIn [nA] None (Some (VRetry, VReject)) [nA]) (Ok ([false; true], [(0, Some nA)], DGreeted 0 (Some nA))) = false /\
   (* handler reached although the filter refused *)
-  monitor (mkIn [0] None (Some (VReject, VAccept)) [0]) (Ok ([false], [(0, Some 0)], DRefused)) = false /\
+  monitor (mkIn [nA] None (Some (VReject, VAccept)) [nA]) (Ok ([false], [(0, Some nA)], DRefused)) = false /\
   (* two handlers for one connection *)
-  monitor (mkIn [0; 1] None None [0; 1]) (Ok ([], [(0, Some 0); (1, Some 1)], DGreeted 0 (Some 0))) = false /\
+  monitor (mkIn [nA; nB] None None [nA; nB]) (Ok ([], [(0, Some nA); (1, Some nB)], DGreeted 0 (Some nA))) = false /\
   (* registered protocol, admitted, but dropped without a handler *)
-  monitor (mkIn [0] None None [0]) (Ok ([], [], DDropped (Some 0))) = false.
-Proof. vm_compute. auto. Qed.
+  monitor (mkIn [nA] None None [nA]) (Ok ([], [], DDropped (Some nA))) = false.
+Proof. vm_compute. repeat split. Qed.
